@@ -947,11 +947,15 @@ fn parse_number(
         }
         position += 1;
     }
-    // Check the group separator is in multiples of three
+    // Check the group separator is in multiples of three, and that each one is
+    // followed by digits: "1," and "1,,234" are not numbers
+    let mut previous_index = None;
     for index in &group_separator_index {
-        if (chars.len() - index) % 3 != 0 {
+        if (chars.len() - index) % 3 != 0 || *index == chars.len() || previous_index == Some(*index)
+        {
             return Err("Cannot parse number".to_string());
         }
+        previous_index = Some(*index);
     }
     let mut decimal_digits = 0;
     if position < len && characters[position] == decimal_separator {
